@@ -614,7 +614,14 @@ func c19Live(c *vh.Case) {
 		big = []int{70000, 1<<20 + 7, vh.Pick(1<<20+4096, 3<<20)}[r.Intn(3)]
 		payloads = append(payloads, strings.Repeat("0123456789abcdef", big/16)+"é")
 	}
-	c.SetSpec(map[string]any{"gen": "live", "transport": kind, "payloads": payloads[:6], "big_payload_bytes": big})
+	version := "2025-06-18"
+	if r.Chance(1, 3) {
+		version = "" // the client's default: 2026-07-28 where the transport can serve it
+		if r.Chance(1, 3) {
+			kind = "http-stateless"
+		}
+	}
+	c.SetSpec(map[string]any{"gen": "live", "transport": kind, "version": version, "payloads": payloads[:6], "big_payload_bytes": big})
 	server := mcp.NewServer(&mcp.Implementation{Name: "s", Version: "1"}, &mcp.ServerOptions{
 		CompletionHandler: func(context.Context, *mcp.CompleteRequest) (*mcp.CompleteResult, error) { return &mcp.CompleteResult{}, nil },
 	})
@@ -671,7 +678,7 @@ func c19Live(c *vh.Case) {
 		}
 		return fc
 	}
-	pair, err := vhm.Connect(ctx, vhm.PairOpts{Kind: kind, Server: server, Client: client, ClientVersion: "2025-06-18", WrapClient: wrap, AsyncDelete: true})
+	pair, err := vhm.Connect(ctx, vhm.PairOpts{Kind: kind, Server: server, Client: client, ClientVersion: version, WrapClient: wrap, AsyncDelete: true})
 	if err != nil {
 		c.Inconclusive("connect %s: %v", kind, err)
 		return
@@ -723,7 +730,8 @@ func c19Live(c *vh.Case) {
 	}
 	c.Count("live_sessions", 1)
 	c.Count("wire_responses_checked", len(methodOf))
-	c.Nontrivial("live:" + kind + strings.Join(payloads[:6], "|") + fmt.Sprint(big))
+	c.Seen("live-negotiated", kind+"/"+cs.InitializeResult().ProtocolVersion)
+	c.Nontrivial("live:" + kind + version + strings.Join(payloads[:6], "|") + fmt.Sprint(big))
 }
 
 var _ = testing.Short
